@@ -60,8 +60,37 @@ def blocks(tier, seed):
     return out
 
 
+PRELUDES = ["amplitude-less-instances", "many-mode-instances", "other-dimension"]
+
+
+def prelude(name):
+    """what a caller may have done earlier in the same process (e.g. to draw a test image): construct droplets of the same classes"""
+    from droplets.droplets import DiffuseDroplet, PerturbedDroplet2D, PerturbedDroplet3D, PerturbedDroplet3DAxisSym, SphericalDroplet
+
+    if name == "amplitude-less-instances":
+        PerturbedDroplet2D(np.zeros(2), 1.0)
+        PerturbedDroplet3D(np.zeros(3), 1.0)
+        PerturbedDroplet3DAxisSym(np.zeros(3), 1.0)
+        DiffuseDroplet(np.zeros(2), 1.0)
+    elif name == "many-mode-instances":
+        PerturbedDroplet2D(np.zeros(2), 1.0, 0.5, np.zeros(6))
+        PerturbedDroplet3D(np.zeros(3), 1.0, 0.5, np.zeros(8))
+        PerturbedDroplet3DAxisSym(np.zeros(3), 1.0, 0.5, np.zeros(5))
+    else:
+        SphericalDroplet(np.zeros(1), 1.0)
+        SphericalDroplet(np.zeros(2), 1.0)
+        SphericalDroplet(np.zeros(3), 1.0)
+        DiffuseDroplet(np.zeros(1), 1.0, 0.3)
+        DiffuseDroplet(np.zeros(3), 1.0, 0.3)
+
+
 def cases(block):
     thorough = block.get("tier") == "thorough"
+    if not block["refine"]:
+        # histories: the same request after other droplets were constructed in the process (fresh fork each)
+        for pre in PRELUDES:
+            for w in (None, 1.3):
+                yield {"grid": block["grid"], "modes": block["modes"], "refine": False, "width": w, "rule": 0.5, "image": "two", "prelude": pre}
     for w in (WIDTHS + [0.4] if thorough else WIDTHS):
         for rule in (RULES + ["extrema", 0.3] if thorough else RULES):
             for img in IMAGES:
@@ -132,6 +161,15 @@ def run_case(case, ctx):
     from droplets import DiffuseDroplet, SphericalDroplet, locate_droplets
     from droplets.droplets import PerturbedDroplet2D, PerturbedDroplet3D, PerturbedDroplet3DAxisSym
 
+    if case.get("prelude") and not case.get("_in_fork"):
+        from mcx import core
+
+        def seq(c, sub):
+            prelude(c["prelude"])
+            run_case(dict(c, _in_fork=True), sub)
+
+        ctx.count("requests-after-a-prelude")
+        return core.run_sequence_in_fork(seq, [case], ctx, tag={"history": case["prelude"]})
     g, modes, refine, w, rule, img = case["grid"], case["modes"], case["refine"], case["width"], case["rule"], case["image"]
     grid, field, nexp = field_for(g, img)
     dim = grid.dim
@@ -187,4 +225,4 @@ def run_case(case, ctx):
 
 
 def expected_positive(tier):
-    return ["C19.class", "C19.dim", "C19.modes", "C19.width-carried", "C19.layout", "C19.dim1-modes-raise", "results-with-droplets", "results-with->=2-droplets"]
+    return ["C19.class", "C19.dim", "C19.modes", "C19.width-carried", "C19.layout", "C19.dim1-modes-raise", "results-with-droplets", "results-with->=2-droplets", "requests-after-a-prelude"]
